@@ -17,7 +17,7 @@ CHUNK = 16
 
 def space(tier):
     return {'spatial dims': '{2,3}^d, d=1..3', 'snapshots': [3, 4, 5, 6], 'families': ['generic', 'lowrank2', 'lowrank3'], 'threshold': [0, 1e-10],
-            'representation': ['tt-svd', 'overparameterised'], 'flags': ['(T,T)', '(F,T)', '(T,F)']}
+            'representation': ['tt-svd', 'overparameterised'], 'flags': ['(T,T)', '(F,T)', '(T,F)', '(F,F)']}
 
 
 def cases(tier):
@@ -27,7 +27,7 @@ def cases(tier):
             for m in ((3, 4, 5, 6) if q else (3, 4, 5, 6, 8, 10)):
                 for fam, thr in (('generic', 0), ('generic', 1e-10), ('lowrank2', 1e-10), ('lowrank3', 1e-10)):
                     for rep in ('ttsvd', 'over'):
-                        for fl in ('TT', 'FT', 'TF'):
+                        for fl in ('TT', 'FT', 'TF', 'FF'):
                             if rep == 'over' and fl != 'TT':
                                 continue
                             yield {'dims': list(dims), 'm': m, 'fam': fam, 'thr': thr, 'rep': rep, 'fl': fl}
@@ -70,8 +70,10 @@ def run_case(case, seed):
     if case['rep'] == 'over':
         x = x + tt.zeros(dims + [m], [1] * (d + 1), 1); y = y + tt.zeros(dims + [m], [1] * (d + 1), 1)
     ol, orr = case['fl'][0] == 'T', case['fl'][1] == 'T'
+    if not ol:
+        x.ortho_left(end_index=x.order - 3)            # TT(array) already is left-orthonormal; harmless and explicit
     if not orr:
-        x.ortho_right(start_index=x.order - 1, end_index=x.order - 1)
+        x.ortho_right(start_index=x.order - 1, end_index=x.order - 1)   # non-orthonormal part moves into the centre core
     sx, sy = snap(x), snap(y)
     # reference: SVD-based DMD with the same relative cut
     U, s, Vt = np.linalg.svd(X, full_matrices=False)
